@@ -210,6 +210,8 @@ def _gen_cmd_v():
     match dispatch table c with Some h => h args | None => err "unknown command" end
   | _ => err "malformed command"
   end.
+(* older name, still used by generated ExtractAgrees.v files; not extracted (the entry point is pqref_main) *)
+Definition run (s : sx) : sx := pqref_main s.
 """
     p = os.path.join(d, "Cmd.v")
     if not os.path.exists(p) or open(p).read() != txt:
